@@ -132,6 +132,18 @@ def go_build_harness(ctx, which):
     else:
         raise ValueError(which)
     rc, o = sh(cmd, cwd=hdir, env=GOENV, timeout=600)
+    if rc != 0 and which == "vt" and "export_verif.go" in o:
+        # the shims for the pure-function differentials (VerifChunk / VerifDelay) call private functions whose signature changed:
+        # build without them (go build -overlay; /repo is not touched) so that everything else can still be compared
+        ov = os.path.join(BUILD, "overlay_vt.json")
+        with open(ov, "w") as f:
+            json.dump({"Replace": {os.path.join(REPO, "toxics", "export_verif.go"): os.path.join(hdir, "overlay", "export_verif_reduced.go.txt"),
+                                   os.path.join(hdir, "vt", "pure_test.go"): os.path.join(hdir, "overlay", "pure_stub_test.go.txt")}}, f)
+        first = o
+        rc, o = sh(cmd[:2] + ["-overlay", ov] + cmd[2:], cwd=hdir, env=GOENV, timeout=600)
+        if rc == 0:
+            ctx.pure_unavailable = first[-1500:]
+            ctx.log("harness vt built WITHOUT the pure-function shims (they no longer compile against the working tree)")
     if rc != 0:
         raise BuildError("go build of harness %s failed:\n%s" % (which, o[-3000:]))
     ctx.log("built harness %s in %.1fs" % (which, time.time() - t))
@@ -363,6 +375,12 @@ class Verdict:
             if f[0] == key and f[3] == has_input:
                 return
         self.findings.append((key, what, replay, has_input))
+
+    def findings_with_input(self):
+        """findings that carry a failing input and are not listed as known"""
+        known, _ = load_known()
+        keys = set((k["property"], k["key"]) for k in known)
+        return [f for f in self.findings if f[3] and (self.ctx.pid, f[0]) not in keys]
 
     def finish(self):
         """prints KNOWN-FINDING / VIOLATION lines; returns (exit code, number of violations)"""
